@@ -1,5 +1,6 @@
 import FGVerif.Proofs.C04
 import FGVerif.Proofs.C03Oracle
+import FGVerif.Proofs.C04Opt
 #print axioms C04.local_sound
 #print axioms C04.anchored_sound_partial
 #print axioms C04.anchored_sound_connected
@@ -16,3 +17,7 @@ import FGVerif.Proofs.C03Oracle
 #print axioms C03.isForestB_sound
 #print axioms C03.existsEmbedding_complete
 #print axioms C03.existsEmbedding_iff
+#print axioms C04Opt.partialOk_iff
+#print axioms C04Opt.requiredOk_iff
+#print axioms C04Opt.partialOk_of_isEmbedding
+#print axioms C04Opt.k12_witness
